@@ -4,40 +4,91 @@
 import ast
 
 
+LENIENCY = ("_lenient_args_parsing", "enable_lenient_args_parsing", "disable_lenient_args_parsing",
+            "is_lenient_args_parsing_enabled")
+
+
 def _help(api):
+    """Strict: every statement of create_resolved_command that mentions the leniency setting (or the variables that
+    hold the configuration / the saved value) is accounted for:
+
+        [<cfg> = result.command.config]  [<saved> = <cfg>._lenient_args_parsing]  <cfg>.enable_lenient_args_parsing()
+        then either   try: <statements not concerned> finally: <restore>          (restores in `finally`)
+        or            <statements not concerned, none leaves>  <restore>  <rest>  (restores after a normal return only)
+        or            no restore at all
+        <restore> is `<cfg>._lenient_args_parsing = <saved>` or `<cfg>.disable_lenient_args_parsing()`
+
+    anything else is not read."""
+    P = api.P
+    U = P.Untranslatable
     tree, rel = api.parse("resolver/help_resolver.py")
-    fn = api.P.find_function(tree, "HelpResolver", "create_resolved_command", rel)
-    src = ast.dump(fn)
-    if "enable_lenient_args_parsing" not in src:
-        raise api.P.Untranslatable("%s: create_resolved_command no longer enables lenient parsing" % rel)
-    saved_var = None
-    for st in fn.body:
-        if (isinstance(st, ast.Assign) and isinstance(st.value, ast.Attribute) and st.value.attr == "_lenient_args_parsing"
-                and isinstance(st.targets[0], ast.Name)):
-            saved_var = st.targets[0].id
-    restores_finally = False
-    restores_after = False
-    saves_previous = False
+    fn = P.find_function(tree, "HelpResolver", "create_resolved_command", rel, decorators=())
+    body = P.strip_doc(fn.body)
+    cfg = saved = None
+    i = 0
 
-    def is_restore(s):
-        nonlocal saves_previous
-        if (isinstance(s, ast.Assign) and isinstance(s.targets[0], ast.Attribute)
-                and s.targets[0].attr == "_lenient_args_parsing"):
-            if isinstance(s.value, ast.Name) and s.value.id == saved_var:
-                saves_previous = True
-            return True
-        if isinstance(s, ast.Expr) and isinstance(s.value, ast.Call) and isinstance(s.value.func, ast.Attribute) \
-                and s.value.func.attr == "disable_lenient_args_parsing":
-            return True
-        return False
+    def concerned(st):
+        return P.mentions(st, names=tuple(x for x in (cfg, saved) if x), attrs=LENIENCY)
 
-    for st in fn.body:
-        if isinstance(st, ast.Try):
-            if any(is_restore(s) for s in st.finalbody):
-                restores_finally = True
-        elif is_restore(st):
-            restores_after = True
-    return restores_finally, restores_after, saves_previous
+    def cfg_expr(e):
+        return ast.unparse(e) == (cfg or "result.command.config")
+
+    # leading statements
+    enabled = False
+    while i < len(body) and not enabled:
+        st = body[i]
+        if (cfg is None and isinstance(st, ast.Assign) and len(st.targets) == 1 and isinstance(st.targets[0], ast.Name)
+                and ast.unparse(st.value) == "result.command.config"):
+            cfg = st.targets[0].id
+        elif (saved is None and isinstance(st, ast.Assign) and len(st.targets) == 1 and isinstance(st.targets[0], ast.Name)
+              and isinstance(st.value, ast.Attribute) and st.value.attr == "_lenient_args_parsing" and cfg_expr(st.value.value)):
+            saved = st.targets[0].id
+        elif (isinstance(st, ast.Expr) and isinstance(st.value, ast.Call) and not st.value.args and not st.value.keywords
+              and isinstance(st.value.func, ast.Attribute) and st.value.func.attr == "enable_lenient_args_parsing"
+              and cfg_expr(st.value.func.value)):
+            enabled = True
+        elif concerned(st) or P.exits(st) or P.mentions(st, names=("result",)) and any(
+                isinstance(n, ast.Name) and n.id == "result" and isinstance(n.ctx, ast.Store) for n in ast.walk(st)):
+            raise U("%s:%d: create_resolved_command: statement before lenient parsing is enabled not understood: `%s`"
+                    % (rel, st.lineno, ast.unparse(st).split("\n")[0][:80]))
+        i += 1
+    if not enabled:
+        raise U("%s: create_resolved_command no longer enables lenient parsing" % rel)
+    rest = body[i:]
+    saves_previous = [False]
+
+    def is_restore(st):
+        if (isinstance(st, ast.Assign) and len(st.targets) == 1 and isinstance(st.targets[0], ast.Attribute)
+                and st.targets[0].attr == "_lenient_args_parsing" and cfg_expr(st.targets[0].value)
+                and saved is not None and isinstance(st.value, ast.Name) and st.value.id == saved):
+            saves_previous[0] = True
+            return True
+        return (isinstance(st, ast.Expr) and isinstance(st.value, ast.Call) and not st.value.args and not st.value.keywords
+                and isinstance(st.value.func, ast.Attribute) and st.value.func.attr == "disable_lenient_args_parsing"
+                and cfg_expr(st.value.func.value))
+
+    def rebinding(sts):
+        return any(isinstance(n, ast.Name) and n.id in (cfg, saved) and isinstance(n.ctx, (ast.Store, ast.Del))
+                   for st in sts for n in ast.walk(st))
+
+    hits = [k for k, st in enumerate(rest) if concerned(st)]
+    if not hits:
+        return False, False, False
+    if len(hits) != 1:
+        raise U("%s:%d: create_resolved_command touches the leniency setting in more than one later statement"
+                % (rel, rest[hits[1]].lineno))
+    st = rest[hits[0]]
+    before, after = rest[:hits[0]], rest[hits[0] + 1:]
+    if isinstance(st, ast.Try):
+        fin = P.strip_doc(st.finalbody)
+        inner = st.body + st.orelse + [x for h in st.handlers for x in h.body]
+        if (len(fin) == 1 and is_restore(fin[0]) and not P.mentions(inner, names=tuple(x for x in (cfg, saved) if x), attrs=LENIENCY)
+                and not P.exits(before) and not rebinding(before + inner)):
+            return True, False, saves_previous[0]
+    elif is_restore(st) and not P.exits(before) and not rebinding(before):
+        return False, True, saves_previous[0]
+    raise U("%s:%d: create_resolved_command: how the leniency setting is restored is not understood: `%s`"
+            % (rel, st.lineno, ast.unparse(st).split("\n")[0][:80]))
 
 
 FIELDS = ["line_ht_char", "line_hc_char", "line_hb_char", "line_vl_char", "line_vc_char", "line_vr_char",
@@ -48,39 +99,71 @@ FIELDS = ["line_ht_char", "line_hc_char", "line_hb_char", "line_vl_char", "line_
 def _styles(api):
     tree, rel = api.parse("ui/style/table_style.py")
     out = []
+    api.P.plain_import(tree, "copy", rel)
+    api.P.imported_as(tree, "BorderStyle", (".border_style", "clikit.ui.style.border_style"), rel)
     for name in ("borderless", "compact", "ascii", "solid"):
-        fn = api.P.find_function(tree, "TableStyle", name, rel)
+        fn = api.P.find_function(tree, "TableStyle", name, rel, decorators=("classmethod",))
         base, copies, sets = None, False, []
-        for st in fn.body:
-            if not isinstance(st, ast.Assign) or not isinstance(st.targets[0], ast.Attribute):
-                continue
+        # strict: `style = TableStyle()`, then only assignments to attributes of `style` (the border style itself, its
+        # character fields after that, anything else that is not the border), then `return style`
+        body = api.P.strip_doc(fn.body)
+        if not (len(body) >= 2 and ast.unparse(body[0]) in ("style = TableStyle()", "style = cls()")
+                and ast.unparse(body[-1]) == "return style" and len(fn.decorator_list) == 1
+                and [a.arg for a in fn.args.args] == ["cls"]):
+            raise api.P.Untranslatable("%s:%d: TableStyle.%s is not `style = TableStyle()` ... `return style`" % (rel, fn.lineno, name))
+        for st in body[1:-1]:
+            if not (isinstance(st, ast.Assign) and len(st.targets) == 1 and isinstance(st.targets[0], ast.Attribute)):
+                raise api.P.Untranslatable("%s:%d: TableStyle.%s: statement not understood" % (rel, st.lineno, name))
             t = st.targets[0]
-            if t.attr == "border_style" and isinstance(t.value, ast.Name):
+            if t.attr == "border_style" and isinstance(t.value, ast.Name) and t.value.id == "style" and base is None:
                 v = st.value
-                if isinstance(v, ast.Call) and isinstance(v.func, ast.Attribute) and getattr(v.func.value, "id", None) == "copy" \
-                        and v.func.attr in ("copy", "deepcopy") and len(v.args) == 1:
+                if isinstance(v, ast.Call) and ast.unparse(v.func) in ("copy.copy", "copy.deepcopy") and len(v.args) == 1 \
+                        and not v.keywords:
                     copies, v = True, v.args[0]
-                if isinstance(v, ast.Call) and isinstance(v.func, ast.Attribute) and getattr(v.func.value, "id", None) == "BorderStyle":
+                if isinstance(v, ast.Call) and isinstance(v.func, ast.Attribute) and getattr(v.func.value, "id", None) == "BorderStyle" \
+                        and not v.args and not v.keywords:
                     base = v.func.attr
                 else:
                     raise api.P.Untranslatable("%s:%d: border style of TableStyle.%s is not BorderStyle.<factory>()" % (rel, st.lineno, name))
-            elif isinstance(t.value, ast.Attribute) and t.value.attr == "border_style":
+            elif ast.unparse(t.value) == "style.border_style" and base is not None:
                 if t.attr not in FIELDS or not (isinstance(st.value, ast.Constant) and isinstance(st.value.value, str)):
                     raise api.P.Untranslatable("%s:%d: unexpected border customisation" % (rel, st.lineno))
                 sets.append((FIELDS.index(t.attr), st.value.value))
+            elif isinstance(t.value, ast.Name) and t.value.id == "style" and t.attr != "border_style" \
+                    and not api.P.mentions(st.value, names=("style", "BorderStyle"), attrs=("border_style",)):
+                pass  # another attribute of the fresh table style: no border state involved
+            else:
+                raise api.P.Untranslatable("%s:%d: TableStyle.%s: statement not understood" % (rel, st.lineno, name))
         if base is None:
             raise api.P.Untranslatable("%s: TableStyle.%s does not set a border style" % (rel, name))
-        out.append((name, base, copies, sets))
+        # the assignments in the order of the fields, a field assigned twice keeps its last value (same end state)
+        out.append((name, base, copies, sorted(dict(sets).items())))
     # the cached border styles
     treeb, relb = api.parse("ui/style/border_style.py")
     bases = {}
-    init = api.P.find_function(treeb, "BorderStyle", "__init__", relb)
+    init = api.P.find_function(treeb, "BorderStyle", "__init__", relb, decorators=())
     default = {}
-    for st in init.body:
-        if isinstance(st, ast.Assign) and isinstance(st.targets[0], ast.Attribute) and st.targets[0].attr in FIELDS:
+    for st in api.P.strip_doc(init.body):
+        # only `self.<field> = "<text>"` (each field once) and `self.style = None`
+        ok = (isinstance(st, ast.Assign) and len(st.targets) == 1 and isinstance(st.targets[0], ast.Attribute)
+              and isinstance(st.targets[0].value, ast.Name) and st.targets[0].value.id == "self"
+              and isinstance(st.value, ast.Constant))
+        if ok and st.targets[0].attr in FIELDS and st.targets[0].attr not in default and isinstance(st.value.value, str):
             default[st.targets[0].attr] = st.value.value
+        elif ok and st.targets[0].attr == "style" and st.value.value is None:
+            pass
+        else:
+            raise api.P.Untranslatable("%s:%d: BorderStyle.__init__: statement not understood" % (relb, st.lineno))
+    if [a.arg for a in init.args.args] != ["self"]:
+        raise api.P.Untranslatable("%s:%d: BorderStyle.__init__(self) expected" % (relb, init.lineno))
     for bname in ("none", "ascii", "solid"):
-        fn = api.P.find_function(treeb, "BorderStyle", bname, relb)
+        fn = api.P.find_function(treeb, "BorderStyle", bname, relb, decorators=("classmethod",))
+        if len(fn.decorator_list) != 1 or [a.arg for a in fn.args.args] != ["cls"]:
+            raise api.P.Untranslatable("%s:%d: BorderStyle.%s is not a plain classmethod" % (relb, fn.lineno, bname))
+        api.P.class_slot_is_none(treeb, "BorderStyle", "_" + bname, relb)
+        if len([x for x in ast.walk(treeb) if isinstance(x, ast.Attribute) and x.attr == "_" + bname
+                and isinstance(x.ctx, (ast.Store, ast.Del))]) != 1:
+            raise api.P.Untranslatable("%s: BorderStyle._%s is assigned in more than one place" % (relb, bname))
         vals = dict(default)
         slot = "cls._%s" % bname
         # strict shape: `if cls._x is None: style = cls(); style.<field> = "<const>" ...; cls._x = style` then
